@@ -43,8 +43,9 @@ func evStr() string {
 // The Lean model logs one release event per acquired object; an object handed to the other pool is logged
 // differently, so it shows as a divergence of the event log.
 type vobj struct {
-	tag  int
-	home string
+	tag   int
+	home  string
+	inUse bool // set when a render takes the object, cleared by the pool's Reset: an object must come back CLEAN
 }
 type vpool struct{ name string }
 
@@ -55,10 +56,20 @@ func (p vpool) Put(x any) {
 			evAdd(fmt.Sprintf("wrongpool%d", o.tag))
 			return
 		}
+		if o.inUse {
+			// the object is handed back to the pool BEFORE it was reset: whoever takes it next gets a dirty object, or
+			// has it wiped under its hands by the late Reset (C18: settled exactly once means reset, THEN put)
+			evAdd(fmt.Sprintf("dirtyput%d", o.tag))
+			return
+		}
 		evAdd(fmt.Sprintf("rel%d", o.tag))
 	}
 }
-func (vpool) Reset(x any) {}
+func (vpool) Reset(x any) {
+	if o, ok := x.(*vobj); ok {
+		o.inUse = false
+	}
+}
 
 // vbufPool: a pool of *[]byte objects (the shape of the repository's own test pool).
 type vbufPool struct{}
@@ -74,6 +85,20 @@ func (vbufPool) Reset(x any) {
 		evAdd(fmt.Sprintf("resetbuf%d", len(*b)))
 		*b = (*b)[:0]
 	}
+}
+
+var verifFallbackOnce sync.Once
+
+// verifFallbackKey: a registered template that no generated session names; it renders a marker.
+func verifFallbackKey() string {
+	verifFallbackOnce.Do(func() {
+		tr, err := dyntpl.Parse([]byte("<<FALLBACK>>"), false)
+		if err != nil {
+			panic(err)
+		}
+		dyntpl.RegisterTplKey("verif-fallback-marker", tr)
+	})
+	return "verif-fallback-marker"
 }
 
 func vpoolOf(tag int) string {
@@ -170,6 +195,7 @@ func init() {
 				return err
 			}
 			x.(*vobj).tag = t
+			x.(*vobj).inUse = true
 			evAdd(fmt.Sprintf("acq%d", t))
 		}
 		return nil
@@ -707,7 +733,13 @@ func (c *RCase) Run() {
 				case 2:
 					out, err = dyntpl.RenderFallback("no-such-template", o.Key, ctx)
 				case 3:
-					out, err = dyntpl.RenderFallback(o.Key, "no-such-template", ctx)
+					fb := "no-such-template"
+					for _, td := range c.Tpls {
+						if td.Key == o.Key {
+							fb = verifFallbackKey()
+						}
+					}
+					out, err = dyntpl.RenderFallback(o.Key, fb, ctx)
 				default:
 					out, err = dyntpl.Render(o.Key, ctx)
 				}
@@ -749,7 +781,15 @@ func (c *RCase) Run() {
 			case 2:
 				err = dyntpl.WriteFallback(w, "no-such-template", o.Key, ctx)
 			case 3:
-				err = dyntpl.WriteFallback(w, o.Key, "no-such-template", ctx)
+				// the key exists: the fallback — a registered template of its own — is never looked at, whatever the
+				// render of the key returns (also "template not found" from an include inside it)
+				fb := "no-such-template"
+				for _, td := range c.Tpls {
+					if td.Key == o.Key {
+						fb = verifFallbackKey()
+					}
+				}
+				err = dyntpl.WriteFallback(w, o.Key, fb, ctx)
 			default:
 				err = dyntpl.Write(w, o.Key, ctx)
 			}
